@@ -31,7 +31,7 @@ func (c16) Rule() string {
 }
 func (c16) Batches(string) int { return 32 }
 func (c16) Required(string) []string {
-	return []string{"chains", "traces_checked", "cfg.noopt", "cfg.opt", "cfg.encoded", "shift.300", "fail.throw-error", "fail.const-lhs", "fail.operator", "fail.builtin", "fail.arity", "fail.index", "fail.notcallable", "fail.gocallback", "fail.finally-rethrow",
+	return []string{"chains", "traces_checked", "cfg.noopt", "cfg.opt", "cfg.encoded", "byte_zero_chains", "shift.300", "fail.throw-error", "fail.const-lhs", "fail.operator", "fail.builtin", "fail.arity", "fail.index", "fail.notcallable", "fail.gocallback", "fail.finally-rethrow",
 		"callee.closure", "callee.selector", "callee.module", "callee.argument", "multi_file_traces", "compile_error_positions", "depth.8"}
 }
 func (c16) Assumptions() []string {
@@ -469,6 +469,21 @@ func (m c16) Run(c *core.Ctx) {
 			m.checkChain(c, ch)
 		}
 	}
+	// positions at byte 0 of a file (line 1, column 1): the failing statement or the calling statement is the very first
+	// thing in the main script or in a module, with one, two or three files in the set
+	for bi, ch := range c16byteZeroChains() {
+		idx++
+		if idx%c.NBatch != c.Batch {
+			continue
+		}
+		ch := ch
+		if !c.Begin(func() string { return ch.Main }) {
+			continue
+		}
+		c.Count("byte_zero_chains")
+		c.Nontrivial(fmt.Sprintf("byte0-%d", bi))
+		m.checkChain(c, ch)
+	}
 	n := c.Pick(60, 1500)
 	for i := 0; i < n; i++ {
 		ch := c16build(c.Rng, c.Rng.Intn(9), c16fails[c.Rng.Intn(len(c16fails))])
@@ -483,6 +498,21 @@ func (m c16) Run(c *core.Ctx) {
 		if i%3 == 0 {
 			m.compileErrorPositions(c, c.Rng)
 		}
+	}
+}
+
+func c16byteZeroChains() []c16chain {
+	thrower := "return func() {\n  throw error(\"x\")\n}\n"
+	return []c16chain{
+		{Main: "throw error(\"boom\")", Expect: []string{"(main):1"}, Fail: "byte0-throw"},
+		{Main: "throw error(\"boom\")\n", Expect: []string{"(main):1"}, Fail: "byte0-throw"},
+		{Main: "[1, 2][5]\n", Expect: []string{"(main):1"}, Fail: "byte0-index"},
+		{Main: "import(\"m0\")()\n", Modules: map[string]string{"m0": thrower}, Expect: []string{"(main):1", "m0:2"}, Fail: "byte0-call"},
+		{Main: "import(\"m0\")\n", Modules: map[string]string{"m0": "throw error(\"at import\")\n"}, Expect: []string{"(main):1", "m0:1"}, Fail: "byte0-module-body"},
+		{Main: "f := import(\"m1\")\nf()\n", Modules: map[string]string{"m1": "import(\"m0\")()\n", "m0": thrower}, Expect: []string{"(main):1", "m1:1", "m0:2"}, Fail: "byte0-module-call"},
+		{Main: "import(\"m2\")\nimport(\"m1\")\n", Modules: map[string]string{"m2": "return 1\n", "m1": "import(\"m0\")()\n", "m0": thrower}, Expect: []string{"(main):2", "m1:1", "m0:2"}, Fail: "byte0-module-call"},
+		{Main: "g := import(\"m2\")\nimport(\"m1\")\ng()\n", Modules: map[string]string{"m2": "return func() {\n  [1][3]\n}\n", "m1": "return 1\n"}, Expect: []string{"(main):3", "m2:2"}, Fail: "byte0-first-module-not-last"},
+		{Main: "import(\"m2\")()\n", Modules: map[string]string{"m2": "return func() {\n  return import(\"m1\")\n}\n", "m1": "throw \"s\"\n"}, Expect: []string{"(main):1", "m2:2", "m1:1"}, Fail: "byte0-module-body"},
 	}
 }
 
